@@ -300,6 +300,9 @@ fn trace_run<T: Sample>(
     seed: u64,
     nops: usize,
 ) -> Result<usize, String> {
+    // tag-heavy runs (every 3rd): up to 9 tags per commit (ordinals are one decimal digit in the tag id), several on one
+    // sample, so that read windows with dozens of tags across the wrap occur
+    let maxtags = if seed % 3 == 2 { 9 } else { 3 };
     let mut rng = Rng::new(seed);
     let mut real = match Real::<T>::new(size, modulus) {
         Ok(r) => r,
@@ -357,13 +360,17 @@ fn trace_run<T: Sample>(
                 writeln!(out, "{ev}").unwrap();
                 return Ok(events + 1);
             } else {
-                let k = pick_len(&mut rng, wl, to_wrap);
+                let mut k = pick_len(&mut rng, wl, to_wrap);
+                if maxtags > 3 && rng.chance(7, 8) {
+                    // tag-heavy: many small commits, so that tags pile up
+                    k = k.min(1 + rng.below(8));
+                }
                 let n = if rng.chance(4, 5) { k } else { rng.below(k + 1) };
                 let produced = real.produced;
                 let vals: Vec<T> = (0..k).map(|j| real.val(produced + j as u64 + 1)).collect();
                 let mut tg: Vec<(usize, u64)> = Vec::new();
-                if n > 0 && rng.chance(1, 2) {
-                    let nt = 1 + rng.below(3);
+                if n > 0 && (rng.chance(1, 2) || maxtags > 3) {
+                    let nt = 1 + rng.below(maxtags);
                     for _ in 0..nt {
                         let p = match rng.below(6) {
                             0 => 0,
@@ -408,7 +415,10 @@ fn trace_run<T: Sample>(
                 writeln!(out, "{ev}").unwrap();
                 return Ok(events + 1);
             } else {
-                let m = pick_len(&mut rng, rl, to_wrap);
+                let mut m = pick_len(&mut rng, rl, to_wrap);
+                if maxtags > 3 && rng.chance(7, 8) {
+                    m = m.min(rng.below(5));
+                }
                 let runs = real.runs(r.slice());
                 let res = catch(move || r.consume(m));
                 ev = json!({"op": "consume", "m": m, "runs": runs, "panic": res.is_err(), "st": real.st()});
@@ -463,7 +473,8 @@ pub fn cmd_trace(args: &[String]) -> i32 {
     let runs = arg_usize(args, "--runs", 1);
     let ops = arg_usize(args, "--ops", 100);
     let mut f = std::io::BufWriter::new(std::fs::File::create(&out).expect("create"));
-    let size = pages * 4096;
+    // --bytes overrides --pages (sizes that are not a page multiple)
+    let size = arg_usize(args, "--bytes", pages * 4096);
     let mut events = 0;
     for r in 0..runs {
         let s = seed.wrapping_mul(1000).wrapping_add(r as u64);
